@@ -2,6 +2,7 @@ import Casm.Model.Bits
 import Casm.Model.Show
 import Casm.Model.OutFormat
 import Casm.Model.Layout
+import Casm.Model.CharCounter
 /-! casm-model: answers the line protocol from the Lean model's executable definitions. -/
 open Casm
 
@@ -130,6 +131,17 @@ def step (line : String) : String :=
       match buildOutput bs its' with
       | .error e => s!"err {showLayErr e}"
       | .ok out => s!"ok {showBits out.bits} {showSpans out.spans}"
+  | ["lc", t, idx, ln] =>
+    let s := unhexText t
+    match idx.toNat?, ln.toNat? with
+    | some i, some l =>
+      let (line, col) := lineColAtIndex s i
+      let (a, b) := indexRangeOfLine s l
+      let ex := match getExcerpt s a b with
+        | some cs => hexOfChars cs
+        | none => "panic"
+      s!"{line} {col} {a} {b} {lineCount s} {ex}"
+    | _, _ => "bad-op"
   | _ => "bad-op"
 
 partial def loop (h : IO.FS.Stream) (out : IO.FS.Stream) : IO Unit := do
